@@ -11,6 +11,7 @@ package main
 
 import (
 	"fmt"
+	"go/constant"
 	"go/token"
 	"go/types"
 	"sort"
@@ -862,6 +863,56 @@ func c19Or(fs ...func(b *ssa.BasicBlock, k int) bool) func(b *ssa.BasicBlock, k 
 		}
 		return false
 	}
+}
+
+// c19SameValue: a and b denote the same value at both program points: the same SSA
+// value, equal constants, or the same pure access path (parameter / field /
+// dereference chains, len() of such) — paths through calls with side effects,
+// unnamed allocations or truncated paths never compare equal.
+func c19SameValue(a, b ssa.Value) bool {
+	if a == b {
+		return true
+	}
+	ca, oka := constOf(a)
+	cb, okb := constOf(b)
+	if oka || okb {
+		return oka && okb && ca.Kind() == cb.Kind() && constant.Compare(ca, token.EQL, cb)
+	}
+	if !types.Identical(a.Type(), b.Type()) {
+		return false
+	}
+	return c19PureExpr(a, 0) && c19PureExpr(b, 0) && path(a) == path(b)
+}
+
+// c19PureExpr: v is built only from parameters, named locals, field selections,
+// dereferences, conversions and len/cap — re-evaluating it yields the same thing
+// as long as the named things are not reassigned (which path() cannot see; the
+// callers compare values on one straight error path).
+func c19PureExpr(v ssa.Value, depth int) bool {
+	if depth > 6 {
+		return false
+	}
+	switch x := v.(type) {
+	case *ssa.Parameter, *ssa.FreeVar, *ssa.Global:
+		return true
+	case *ssa.Alloc:
+		return x.Comment != "" && x.Comment != "complit" && x.Comment != "new"
+	case *ssa.UnOp:
+		return x.Op == token.MUL && c19PureExpr(x.X, depth+1)
+	case *ssa.FieldAddr:
+		return c19PureExpr(x.X, depth+1)
+	case *ssa.Field:
+		return c19PureExpr(x.X, depth+1)
+	case *ssa.Convert:
+		return c19PureExpr(x.X, depth+1)
+	case *ssa.ChangeType:
+		return c19PureExpr(x.X, depth+1)
+	case *ssa.Call:
+		if b, ok := x.Common().Value.(*ssa.Builtin); ok && (b.Name() == "len" || b.Name() == "cap") && len(x.Common().Args) == 1 {
+			return c19PureExpr(x.Common().Args[0], depth+1)
+		}
+	}
+	return false
 }
 
 func c19SortedSet(m map[string]bool) string {
